@@ -51,3 +51,141 @@ def statement_graphs(s: str):
     if s.startswith("ERR"):
         return [s]
     return s.split("%", 1)[0].split("$")
+
+
+# ---------------------------------------------------------------------------
+# the exactness checks C01 (tables) and C02 (columns)
+# ---------------------------------------------------------------------------
+def exactness_check(pid: str, part: str) -> int:
+    import corpus
+    import gen_witness
+    from common import Check, load_known, rng, seed, tier
+
+    ck = Check(pid)
+    ck.assumptions += [
+        "the sqlfluff parser is an oracle: the model starts from its trees (tree well-formedness is monitored on every tree)",
+        "generated statements use unquoted lower-case identifiers; the guarded generator excludes the recorded defect classes (replayed separately)",
+        "scalar sub-queries inside expressions are analysed by the legacy sqlparse runner; its answers are taken from the implementation (oracle e_scalar)",
+    ]
+    ck.trusted += [
+        "hand-written Gallina tree model Tree/{Seg,Utils,Models,Holder,Extract,Script}.v + Holder/Build.v, tied by suite T2/T4 on the parser's own trees (this run)",
+        "denotational specification Ast/Spec.v (read as the statement of the property), evaluated by vm_compute",
+        "harness/astgen.py (generator, SQL printer, Gallina emitter), harness/t2tie.py (tree serialisation), harness/sqltie.py",
+    ]
+    proofs_ok = ck.proofs()
+    quick = tier() == "quick"
+    r = rng(pid)
+    disagreements, spec_failures = [], []
+    dist = {"generated": 0, "per_dialect": {}, "parse_rejected": {}, "kinds": {}, "corpus_statements": 0, "skipped": 0}
+
+    stale = gen_witness.fresh()
+    if stale:
+        disagreements.append({"suite": "witness-freshness", "stale_witness_trees": stale,
+                              "detail": "the parser no longer yields the committed trees of Props/Witness.v"})
+
+    # ---- generated core grammar -------------------------------------------------------------
+    n = 260 if quick else 4000
+    stmts = [astgen.gen_stmt(r, r.choice([0, 1, 2, 2])) for _ in range(n)]
+    for s in stmts:
+        dist["kinds"][s[0]] = dist["kinds"].get(s[0], 0) + 1
+    spec = spec_strings(stmts)
+    all_d = [d for d in installed_dialects() if d != "ansi"]
+    dialects = ["ansi"] + (r.sample(all_d, 2) if quick else all_d)
+    for d in dialects:
+        sub = list(range(len(stmts))) if (d == "ansi" or not quick) else r.sample(range(len(stmts)), 90)
+        res = run(records([stmts[i] for i in sub], dialect=d))
+        for i, x in zip(sub, res):
+            ck.count()
+            dist["generated"] += 1
+            if "skip" in x:
+                dist["parse_rejected"][d] = dist["parse_rejected"].get(d, 0) + 1
+                continue
+            dist["per_dialect"][d] = dist["per_dialect"].get(d, 0) + 1
+            case = {"suite": "T3-generated", "dialect": d, "sql": x["rec"]["sql"], "ast": astgen.g_stmt(stmts[i])}
+            if x["impl"].startswith("ERR"):
+                case.update(impl=x["impl"], spec=spec[i])
+                spec_failures.append(case)
+                continue
+            summ = x["summary"]
+            i_part = tables_part(summ) if part == "tables" else summ
+            s_part = tables_part(spec[i]) if part == "tables" else spec[i]
+            if part == "tables":
+                i_proj = [dataset_nodes(g) for g in statement_graphs(x["impl"])]
+                m_proj = [dataset_nodes(g) for g in statement_graphs(x["model"])]
+            else:
+                i_proj, m_proj = x["impl"], x["model"]
+            if "#" in summ and (summ.split("#")[1] if part == "columns" else tables_part(summ) != "R=;W="):
+                ck.nontriv((d, x["rec"]["sql"]))
+            if i_part != s_part:
+                case.update(impl=i_part, spec=s_part, model_agrees_with_impl=(i_proj == m_proj))
+                spec_failures.append(case)
+            elif i_proj != m_proj:
+                case.update(impl=str(i_proj)[:3000], model=str(m_proj)[:3000])
+                disagreements.append(case)
+        if res:
+            ck.sample({"dialect": d, "sql": res[0]["rec"]["sql"], "result": res[0].get("summary")})
+
+    # ---- corpus: test-suite SQL, tie only (no specification for arbitrary SQL) -------------------
+    recs = [x for x in corpus.load() if x["dialect"] != "non-validating" and (not quick or not x.get("origin", "").startswith("tpcds"))]
+    for x in run(recs):
+        ck.count()
+        if "skip" in x:
+            dist["skipped"] += 1
+            continue
+        dist["corpus_statements"] += 1
+        if part == "tables":
+            a = [dataset_nodes(g) for g in statement_graphs(x["impl"])]
+            b = [dataset_nodes(g) for g in statement_graphs(x["model"])]
+        else:
+            a, b = x["impl"], x["model"]
+        if a != b:
+            disagreements.append({"suite": "T2-corpus", "dialect": x["rec"]["dialect"], "sql": x["rec"]["sql"],
+                                  "metadata": x["rec"].get("metadata"), "impl": str(a)[:3000], "model": str(b)[:3000]})
+        if x.get("wf_problems"):
+            disagreements.append({"suite": "tree-wf", "sql": x["rec"]["sql"], "problems": x["wf_problems"][:5]})
+
+    # ---- recorded defect classes: replay the witnesses -------------------------------------------------
+    from sqllineage.runner import LineageRunner
+    import warnings
+    warnings.filterwarnings("ignore")
+    for f in load_known():
+        if f["property"] != pid or f["status"] != "known" or "replay" not in f:
+            continue
+        rp = f["replay"]
+        try:
+            lr = LineageRunner(rp["sql"], dialect=rp.get("dialect", "ansi"))
+            lr._eval()
+            got = t2tie.summary(lr)
+        except Exception as e:
+            got = "ERR:" + type(e).__name__
+        got_p = tables_part(got) if part == "tables" else got
+        ck.count()
+        if got_p == rp["observed"]:
+            ck.known(f["id"], f["what"] + " (replayed: %r -> %s)" % (rp["sql"], got_p))
+        elif got_p == rp["expected"]:
+            pass   # repaired: the code now does what the property says on this class
+        else:
+            spec_failures.append({"suite": "known-finding-replay", "finding": f["id"], "sql": rp["sql"], "impl": got_p,
+                                  "recorded_defect": rp["observed"], "spec": rp["expected"]})
+
+    ck.notes["input_distribution"] = dist
+    ck.notes["dialects"] = dialects
+    ck.coverage["disagreements_checked"] = len(disagreements)
+    if spec_failures:
+        c = spec_failures[0]
+        c["how_to_replay"] = "cd /verif && VERIF_SEED=%d ./check %s --tier %s" % (seed(), pid, tier())
+        c["all_failures"] = len(spec_failures)
+        ck.violation(c, "spec")
+    elif disagreements:
+        c = disagreements[0]
+        c["broken"] = "correspondence T2/T3 between the tree model (Tree/Extract.v, theorems of Props/%s.v) and sqllineage/core/parser/sqlfluff" % pid
+        c["all_disagreements"] = len(disagreements)
+        c["search"] = "the specification was compared with the implementation on every generated statement of this run; no failing input"
+        ck.violation(c, "tie", no_input=True)
+    if not proofs_ok:
+        ck.violation({"broken": "proof obligations of Props/%s.v" % pid, "detail": ck.broken_obligation}, "proof", no_input=not spec_failures)
+    return ck.finish(rule="%d generated core-SQL statements (statement kind x FROM shape {single, explicit joins, comma joins, parenthesised join "
+                          "groups, derived tables, CTE references} x items {column, qualified column, star, function, arithmetic, CASE, CAST, "
+                          "window, unresolved column} x set operation x WITH x WHERE-IN sub-query, nesting <= 2) under dialects %s, plus the "
+                          "harvested corpus (tie only) and the witnesses of the recorded defect classes; non-trivial = distinct (dialect, SQL) "
+                          "with non-empty lineage" % (n, ",".join(dialects)))
